@@ -10,7 +10,7 @@ import ast
 from z3 import *
 from pyvc.core import *
 
-PROPS = ['C08']
+PROPS = ['C08', 'C06', 'C19', 'C20']
 REPLAY = {'driver': 'parse_params'}
 REL = 'taskiq/compat.py'
 TRUSTED = [
@@ -54,7 +54,21 @@ def generate(src):
         def find_handler(self, name, recv=None):
             if name.endswith('.validate_python'): return lambda ex_, st_, e, r, a, kw, k, K: k(st_, validate(annot_of(to_val(r)), to_val(a[0])))
             return super().find_handler(name, recv)
-    ex2 = Ex2({'create_type_adapter': h_cta}); obj = fresh('obj'); st2 = State(); st2.env = {'annot': annot, 'obj': obj}; st2.facts = list(AX)
+    ex2 = Ex2({'create_type_adapter': h_cta}); ex2.no_pure_fallback = True; obj = fresh('obj')
+    oblige(State(), "parse_obj_as/memoisation: the CONVERSION RESULT is never cached (every call validates again: two messages with equal raw values must not share one parsed, possibly mutable, object)  [C06/C08]",
+           BoolVal(not POA.decorator_list and not any(isinstance(n_, ast.Call) and ast.unparse(n_.func).split('.')[-1] in ('lru_cache', 'cache') for n_ in ast.walk(POA)))); st2 = State(); st2.env = {'annot': annot, 'obj': obj}; st2.facts = list(AX)
     ex2.run(POA, st2, lambda s, v: (oblige(s, "parse_obj_as/post: the value is converted by the adapter of ITS annotation: result == conv(annot, obj)  [C08]", to_val(v) == validate(annot, obj)), reach(s, "parse_obj_as/reach@return")),
             lambda s, x: None)
+    # ---------------- model_validate: result backends load a stored TaskiqResult through it - it must go through the model's validators
+    MV = src.func(REL, 'model_validate'); mvals = Function('model_class_model_validate', Val, Val, Val); mc = fresh('model_class'); msg = fresh('message')
+    class Ex3(Exec):
+        def find_handler(self, name, recv=None):
+            if name in ('model_class.model_validate', 'model_class.parse_obj'): return lambda ex_, st_, e, r, a, kw, k, K: k(st_, mvals(mc, to_val(a[0])) if len(a) == 1 and not kw else fresh('other'))
+            return super().find_handler(name, recv)
+    ex3 = Ex3({}); ex3.no_pure_fallback = True; st3 = State(); st3.env = {'model_class': mc, 'message': msg}
+    try:
+        ex3.run(MV, st3, lambda s, v: (oblige(s, "model_validate/post: the stored data goes through the model's own validation (model_class.model_validate(message)): the validators of TaskiqResult.error are what guards the loading of stored errors  [C20/C19]", to_val(v) == mvals(mc, msg)), reach(s, "model_validate/reach@return")),
+                lambda s, x: oblige(s, "model_validate/raises: nothing of its own  [C20/C19]", BoolVal(False)))
+    except Unsupported as ex_:
+        oblige(State(), "model_validate/post: the stored data goes through the model's own validation (model_class.model_validate(message)): the validators of TaskiqResult.error are what guards the loading of stored errors  [C20/C19]", BoolVal(False), witness={})
     return {'decorators': decos}
